@@ -13,6 +13,15 @@
 //@ struct file=src/sys/fs/memfs/entry.rs name=MemfsEntryOpts
 //@ endstruct
 
+// R11 (unit-wide): the RwLock guard becomes the `guard` parameter; `self._helper(<guard>, ..)` becomes the free function `_helper(guard, ..)`
+//@ rwall R11 re⟦let (?:mut )?guard = self\.(?:read|write)_guard\(\);⟧ => ⟦⟧
+//@ rwall R11 re⟦&(?:mut )?self\.(?:read|write)_guard\(\)⟧ => ⟦guard⟧
+//@ rwall R11 re⟦\bself\.(_[a-z_]+)\(&(?:mut )?guard\b⟧ => ⟦\1(guard⟧
+//@ rwall R11 re⟦\bself\.(_[a-z_]+)\(guard\b⟧ => ⟦\1(guard⟧
+//@ rwall R11 re⟦\btarget\.is_absolute\(\)⟧ => ⟦target.is_absolute2()⟧
+// R10 (unit-wide): the crate macro unwrap_or_false!(e) is `match e { Ok(v) => v, Err(_) => return false }` (src/core/result.rs:18; ASSUMED[macro-unwrap-or-false]: transcribed, not re-extracted)
+//@ rwall R10 re⟦unwrap_or_false!\(((?:[^()]|\([^()]*\))*)\)⟧ => ⟦match \1 { Ok(v) => v, Err(_) => return false }⟧
+
 // ---- assumed contracts of the layers below (each is proved against the real body in its own unit)
 // spec_abs(cwd, spelling): the absolute clean location a path argument denotes (unit abs_both proves Memfs::_abs against it)
 pub uninterp spec fn spec_abs(cwd: PathV, arg: Comps) -> Option<PathV>;
@@ -90,7 +99,7 @@ impl MemfsEntryOpts {
                 same_path(r.path, self.path), same_path(r.alt, self.alt), same_path(r.rel, self.rel),
 //@ body
 
-//@ item opts_link_to file=src/sys/fs/memfs/entry.rs block="impl MemfsEntryOpts" fn=link_to props=C10,C01,C12
+//@ item opts_link_to file=src/sys/fs/memfs/entry.rs block="impl MemfsEntryOpts" fn=link_to props=C10,C01,C12,C16
 //@ sig pub(crate) fn link_to<T: Into<PathBuf>>(mut self, path: T) -> RvResult<Self>
 //@ rw R2 + re⟦\bself\b⟧ => ⟦this⟧
 //@ ins start
@@ -335,8 +344,6 @@ pub proof fn lemma_remove_missing(s: St, a: PathV)
 
 //@ item remove file=src/sys/fs/memfs/vfs.rs block="impl VirtualFileSystem for Memfs" fn=remove props=C01,C03,C10,C05,C12
 //@ sig fn remove<T: AsRef<Path>>(&self, path: T) -> RvResult<()>
-//@ rw R11 1 ⟦let mut guard = self.write_guard();⟧ => ⟦⟧
-//@ rw R11 1 ⟦self._abs(&guard, path)?⟧ => ⟦_abs(guard, path)?⟧
 //@ ins after ⟦_abs(guard, path)?;⟧
         let ghost s0 = guard.st();
         let ghost a = path@;
@@ -375,8 +382,6 @@ pub fn remove(guard: &mut MemfsGuard, path: &PathBuf) -> (r: RvResult<()>)
 
 //@ item set_cwd file=src/sys/fs/memfs/vfs.rs block="impl VirtualFileSystem for Memfs" fn=set_cwd props=C01,C03,C05,C12
 //@ sig fn set_cwd<T: AsRef<Path>>(&self, path: T) -> RvResult<PathBuf>
-//@ rw R11 1 ⟦let mut guard = self.write_guard();⟧ => ⟦⟧
-//@ rw R11 1 ⟦self._abs(&guard, path)?⟧ => ⟦_abs(guard, path)?⟧
 //@ ins before ⟦guard.set_cwd(path.clone());⟧
         let ghost s0 = guard.st();
 //@ endins
@@ -405,9 +410,6 @@ pub fn set_cwd(guard: &mut MemfsGuard, path: &PathBuf) -> (r: RvResult<PathBuf>)
 
 //@ item mkfile file=src/sys/fs/memfs/vfs.rs block="impl VirtualFileSystem for Memfs" fn=mkfile props=C01,C03,C05,C12
 //@ sig fn mkfile<T: AsRef<Path>>(&self, path: T) -> RvResult<PathBuf>
-//@ rw R11 1 ⟦let mut guard = self.write_guard();⟧ => ⟦⟧
-//@ rw R11 1 ⟦self._abs(&guard, path)?⟧ => ⟦_abs(guard, path)?⟧
-//@ rw R11 1 ⟦self._add(&mut guard, MemfsEntry::opts(path).file().build())⟧ => ⟦_add(guard, MemfsEntry::opts(path).file().build())⟧
 pub fn mkfile(guard: &mut MemfsGuard, path: &PathBuf) -> (r: RvResult<PathBuf>)
     requires wf(old(guard).st()),
     ensures
@@ -453,82 +455,63 @@ pub open spec fn at(s: St, arg: Comps) -> Option<EntryV> {
     match spec_abs(s.cwd, arg) { Some(a) => if s.entries.contains_key(a) { Some(s.entries[a]) } else { None }, None => None }
 }
 
-//@ item exists file=src/sys/fs/memfs/vfs.rs block="impl VirtualFileSystem for Memfs" fn=exists props=C01,C05,C12
-//@ rw R11 1 ⟦let guard = self.read_guard();⟧ => ⟦⟧
-//@ rw R10 1 ⟦unwrap_or_false!(self._abs(&guard, path))⟧ => ⟦match _abs(guard, path) { Ok(v) => v, Err(_) => return false }⟧
+//@ item exists file=src/sys/fs/memfs/vfs.rs block="impl VirtualFileSystem for Memfs" fn=exists props=C01,C05,C12,C20
 pub fn exists(guard: &MemfsGuard, path: &PathBuf) -> (r: bool)
     requires guard.st().cwd_ok
     ensures r == (at(guard.st(), path.comps()) is Some)     //@ clause exists.post [C01,C05]
 //@ body
 
 //@ item _is_dir file=src/sys/fs/memfs/vfs.rs block="impl Memfs" fn=_is_dir props=C01,C05,C12,C09
-//@ rw R10 1 ⟦unwrap_or_false!(self._abs(guard, path))⟧ => ⟦match _abs(guard, path) { Ok(v) => v, Err(_) => return false }⟧
 pub fn _is_dir(guard: &MemfsGuard, path: &PathBuf) -> (r: bool)
     requires guard.st().cwd_ok
     ensures r == (at(guard.st(), path.comps()) is Some && at(guard.st(), path.comps())->Some_0.dir)
 //@ body
 
-//@ item is_dir file=src/sys/fs/memfs/vfs.rs block="impl VirtualFileSystem for Memfs" fn=is_dir props=C01,C10,C05,C12
+//@ item is_dir file=src/sys/fs/memfs/vfs.rs block="impl VirtualFileSystem for Memfs" fn=is_dir props=C01,C10,C05,C12,C20
 //@ sig fn is_dir<T: AsRef<Path>>(&self, path: T) -> bool
-//@ rw R11 1 ⟦let guard = self.read_guard();⟧ => ⟦⟧
-//@ rw R10 1 ⟦unwrap_or_false!(self._abs(&guard, path))⟧ => ⟦match _abs(guard, path) { Ok(v) => v, Err(_) => return false }⟧
 pub fn is_dir(guard: &MemfsGuard, path: &PathBuf) -> (r: bool)
     requires guard.st().cwd_ok
     ensures r == (at(guard.st(), path.comps()) is Some && at(guard.st(), path.comps())->Some_0.dir && !at(guard.st(), path.comps())->Some_0.link)     //@ clause is_dir.link_exclusion [C10,C01]
 //@ body
 
-//@ item is_file file=src/sys/fs/memfs/vfs.rs block="impl VirtualFileSystem for Memfs" fn=is_file props=C01,C10,C05,C12
+//@ item is_file file=src/sys/fs/memfs/vfs.rs block="impl VirtualFileSystem for Memfs" fn=is_file props=C01,C10,C05,C12,C20
 //@ sig fn is_file<T: AsRef<Path>>(&self, path: T) -> bool
-//@ rw R11 1 ⟦let guard = self.read_guard();⟧ => ⟦⟧
-//@ rw R10 1 ⟦unwrap_or_false!(self._abs(&guard, path))⟧ => ⟦match _abs(guard, path) { Ok(v) => v, Err(_) => return false }⟧
 pub fn is_file(guard: &MemfsGuard, path: &PathBuf) -> (r: bool)
     requires guard.st().cwd_ok
     ensures r == (at(guard.st(), path.comps()) is Some && at(guard.st(), path.comps())->Some_0.file && !at(guard.st(), path.comps())->Some_0.link)     //@ clause is_file.link_exclusion [C10,C01]
 //@ body
 
-//@ item is_exec file=src/sys/fs/memfs/vfs.rs block="impl VirtualFileSystem for Memfs" fn=is_exec props=C11,C01,C05,C12
-//@ rw R11 1 ⟦let guard = self.read_guard();⟧ => ⟦⟧
-//@ rw R10 1 ⟦unwrap_or_false!(self._abs(&guard, path))⟧ => ⟦match _abs(guard, path) { Ok(v) => v, Err(_) => return false }⟧
+//@ item is_exec file=src/sys/fs/memfs/vfs.rs block="impl VirtualFileSystem for Memfs" fn=is_exec props=C11,C01,C05,C12,C20
 pub fn is_exec(guard: &MemfsGuard, path: &PathBuf) -> (r: bool)
     requires guard.st().cwd_ok
     ensures r == (at(guard.st(), path.comps()) is Some && (at(guard.st(), path.comps())->Some_0.mode & 0o111 != 0))     //@ clause is_exec.post
 //@ body
 
-//@ item is_readonly file=src/sys/fs/memfs/vfs.rs block="impl VirtualFileSystem for Memfs" fn=is_readonly props=C11,C01,C05,C12
-//@ rw R11 1 ⟦let guard = self.read_guard();⟧ => ⟦⟧
-//@ rw R10 1 ⟦unwrap_or_false!(self._abs(&guard, path))⟧ => ⟦match _abs(guard, path) { Ok(v) => v, Err(_) => return false }⟧
+//@ item is_readonly file=src/sys/fs/memfs/vfs.rs block="impl VirtualFileSystem for Memfs" fn=is_readonly props=C11,C01,C05,C12,C20
 pub fn is_readonly(guard: &MemfsGuard, path: &PathBuf) -> (r: bool)
     requires guard.st().cwd_ok
     ensures r == (at(guard.st(), path.comps()) is Some && (at(guard.st(), path.comps())->Some_0.mode & 0o222 == 0))     //@ clause is_readonly.post
 //@ body
 
-//@ item is_symlink file=src/sys/fs/memfs/vfs.rs block="impl VirtualFileSystem for Memfs" fn=is_symlink props=C10,C01,C05,C12
-//@ rw R11 1 ⟦let guard = self.read_guard();⟧ => ⟦⟧
-//@ rw R10 1 ⟦unwrap_or_false!(self._abs(&guard, path))⟧ => ⟦match _abs(guard, path) { Ok(v) => v, Err(_) => return false }⟧
+//@ item is_symlink file=src/sys/fs/memfs/vfs.rs block="impl VirtualFileSystem for Memfs" fn=is_symlink props=C10,C01,C05,C12,C20
 pub fn is_symlink(guard: &MemfsGuard, path: &PathBuf) -> (r: bool)
     requires guard.st().cwd_ok
     ensures r == (at(guard.st(), path.comps()) is Some && at(guard.st(), path.comps())->Some_0.link)     //@ clause is_symlink.post
 //@ body
 
 //@ item is_symlink_dir file=src/sys/fs/memfs/vfs.rs block="impl VirtualFileSystem for Memfs" fn=is_symlink_dir props=C10,C01,C05,C12
-//@ rw R11 1 ⟦let guard = self.read_guard();⟧ => ⟦⟧
-//@ rw R10 1 ⟦unwrap_or_false!(self._abs(&guard, path))⟧ => ⟦match _abs(guard, path) { Ok(v) => v, Err(_) => return false }⟧
 pub fn is_symlink_dir(guard: &MemfsGuard, path: &PathBuf) -> (r: bool)
     requires guard.st().cwd_ok
     ensures r == (at(guard.st(), path.comps()) is Some && at(guard.st(), path.comps())->Some_0.link && at(guard.st(), path.comps())->Some_0.dir)     //@ clause is_symlink_dir.post
 //@ body
 
 //@ item is_symlink_file file=src/sys/fs/memfs/vfs.rs block="impl VirtualFileSystem for Memfs" fn=is_symlink_file props=C10,C01,C05,C12
-//@ rw R11 1 ⟦let guard = self.read_guard();⟧ => ⟦⟧
-//@ rw R10 1 ⟦unwrap_or_false!(self._abs(&guard, path))⟧ => ⟦match _abs(guard, path) { Ok(v) => v, Err(_) => return false }⟧
 pub fn is_symlink_file(guard: &MemfsGuard, path: &PathBuf) -> (r: bool)
     requires guard.st().cwd_ok
     ensures r == (at(guard.st(), path.comps()) is Some && at(guard.st(), path.comps())->Some_0.link && at(guard.st(), path.comps())->Some_0.file)     //@ clause is_symlink_file.post
 //@ body
 
-//@ item mode file=src/sys/fs/memfs/vfs.rs block="impl VirtualFileSystem for Memfs" fn=mode props=C11,C01,C05,C12
-//@ rw R11 1 ⟦let guard = self.read_guard();⟧ => ⟦⟧
-//@ rw R11 1 ⟦self._abs(&guard, path)?⟧ => ⟦_abs(guard, path)?⟧
+//@ item mode file=src/sys/fs/memfs/vfs.rs block="impl VirtualFileSystem for Memfs" fn=mode props=C11,C01,C05,C12,C20
 pub fn mode(guard: &MemfsGuard, path: &PathBuf) -> (r: RvResult<u32>)
     requires guard.st().cwd_ok
     ensures (r is Ok) == (at(guard.st(), path.comps()) is Some),
@@ -537,8 +520,6 @@ pub fn mode(guard: &MemfsGuard, path: &PathBuf) -> (r: RvResult<u32>)
 //@ body
 
 //@ item uid file=src/sys/fs/memfs/vfs.rs block="impl VirtualFileSystem for Memfs" fn=uid props=C11,C01,C05,C12
-//@ rw R11 1 ⟦let guard = self.read_guard();⟧ => ⟦⟧
-//@ rw R11 1 ⟦self._abs(&guard, path)?⟧ => ⟦_abs(guard, path)?⟧
 pub fn uid(guard: &MemfsGuard, path: &PathBuf) -> (r: RvResult<u32>)
     requires guard.st().cwd_ok
     ensures (r is Ok) == (at(guard.st(), path.comps()) is Some),
@@ -547,8 +528,6 @@ pub fn uid(guard: &MemfsGuard, path: &PathBuf) -> (r: RvResult<u32>)
 //@ body
 
 //@ item gid file=src/sys/fs/memfs/vfs.rs block="impl VirtualFileSystem for Memfs" fn=gid props=C11,C01,C05,C12
-//@ rw R11 1 ⟦let guard = self.read_guard();⟧ => ⟦⟧
-//@ rw R11 1 ⟦self._abs(&guard, path)?⟧ => ⟦_abs(guard, path)?⟧
 pub fn gid(guard: &MemfsGuard, path: &PathBuf) -> (r: RvResult<u32>)
     requires guard.st().cwd_ok
     ensures (r is Ok) == (at(guard.st(), path.comps()) is Some),
@@ -557,8 +536,6 @@ pub fn gid(guard: &MemfsGuard, path: &PathBuf) -> (r: RvResult<u32>)
 //@ body
 
 //@ item owner file=src/sys/fs/memfs/vfs.rs block="impl VirtualFileSystem for Memfs" fn=owner props=C11,C01,C05,C12
-//@ rw R11 1 ⟦let guard = self.read_guard();⟧ => ⟦⟧
-//@ rw R11 1 ⟦self._abs(&guard, path)?⟧ => ⟦_abs(guard, path)?⟧
 pub fn owner(guard: &MemfsGuard, path: &PathBuf) -> (r: RvResult<(u32, u32)>)
     requires guard.st().cwd_ok
     ensures (r is Ok) == (at(guard.st(), path.comps()) is Some),
@@ -566,9 +543,7 @@ pub fn owner(guard: &MemfsGuard, path: &PathBuf) -> (r: RvResult<(u32, u32)>)
             (r is Err && spec_abs(guard.st().cwd, path.comps()) is Some) ==> r->Err_0.kind == ErrKind::DoesNotExist,
 //@ body
 
-//@ item readlink file=src/sys/fs/memfs/vfs.rs block="impl VirtualFileSystem for Memfs" fn=readlink props=C10,C01,C05,C12
-//@ rw R11 1 ⟦let guard = self.read_guard();⟧ => ⟦⟧
-//@ rw R11 1 ⟦self._abs(&guard, link)?⟧ => ⟦_abs(guard, link)?⟧
+//@ item readlink file=src/sys/fs/memfs/vfs.rs block="impl VirtualFileSystem for Memfs" fn=readlink props=C10,C01,C05,C12,C16,C20
 pub fn readlink(guard: &MemfsGuard, link: &PathBuf) -> (r: RvResult<PathBuf>)
     requires guard.st().cwd_ok
     ensures (r is Ok) == (at(guard.st(), link.comps()) is Some && at(guard.st(), link.comps())->Some_0.link),
@@ -577,9 +552,7 @@ pub fn readlink(guard: &MemfsGuard, link: &PathBuf) -> (r: RvResult<PathBuf>)
             (spec_abs(guard.st().cwd, link.comps()) is Some && at(guard.st(), link.comps()) is None) ==> r is Err && r->Err_0.kind == ErrKind::DoesNotExist,
 //@ body
 
-//@ item readlink_abs file=src/sys/fs/memfs/vfs.rs block="impl VirtualFileSystem for Memfs" fn=readlink_abs props=C10,C01,C05,C12
-//@ rw R11 1 ⟦let guard = self.read_guard();⟧ => ⟦⟧
-//@ rw R11 1 ⟦self._abs(&guard, link)?⟧ => ⟦_abs(guard, link)?⟧
+//@ item readlink_abs file=src/sys/fs/memfs/vfs.rs block="impl VirtualFileSystem for Memfs" fn=readlink_abs props=C10,C01,C05,C12,C16,C20
 pub fn readlink_abs(guard: &MemfsGuard, link: &PathBuf) -> (r: RvResult<PathBuf>)
     requires guard.st().cwd_ok
     ensures (r is Ok) == (at(guard.st(), link.comps()) is Some && at(guard.st(), link.comps())->Some_0.link),
@@ -605,10 +578,7 @@ pub open spec fn link_entry(a: PathV, b: PathV, to_dir: bool) -> EntryV {
              follow: false, cached: false, kids: if to_dir { Some(Set::<Name>::empty()) } else { None } }
 }
 
-//@ item _symlink file=src/sys/fs/memfs/vfs.rs block="impl Memfs" fn=_symlink props=C10,C01,C03,C05,C12
-//@ rw R11 1 ⟦self._abs(guard, link)?⟧ => ⟦_abs(guard, link)?⟧
-//@ rw R11 1 ⟦self._abs(guard, if !target.is_absolute() {⟧ => ⟦_abs(guard, if !target.is_absolute2() {⟧
-//@ rw R11 1 ⟦self._add(guard, entry_opts.build())?;⟧ => ⟦_add(guard, entry_opts.build())?;⟧
+//@ item _symlink file=src/sys/fs/memfs/vfs.rs block="impl Memfs" fn=_symlink props=C10,C01,C03,C05,C12,C16
 //@ ins after ⟦_abs(guard, link)?;⟧
         let ghost s0 = guard.st();
         proof { link.ax_abs(); }
@@ -641,8 +611,7 @@ pub fn _symlink(guard: &mut MemfsGuard, link: &PathBuf, target: &PathBuf) -> (r:
         }),
 //@ body
 
-//@ item symlink file=src/sys/fs/memfs/vfs.rs block="impl VirtualFileSystem for Memfs" fn=symlink props=C10,C01,C03,C05,C12
-//@ rw R11 1 ⟦self._symlink(&mut self.write_guard(), link, target)⟧ => ⟦_symlink(guard, link, target)⟧
+//@ item symlink file=src/sys/fs/memfs/vfs.rs block="impl VirtualFileSystem for Memfs" fn=symlink props=C10,C01,C03,C05,C12,C16
 pub fn symlink(guard: &mut MemfsGuard, link: &PathBuf, target: &PathBuf) -> (r: RvResult<PathBuf>)
     requires wf(old(guard).st()),
     ensures
@@ -696,7 +665,6 @@ impl MemfsEntry {
 }
 
 //@ item _clone_entry file=src/sys/fs/memfs/vfs.rs block="impl Memfs" fn=_clone_entry props=C01,C05,C12
-//@ rw R11 1 ⟦self._abs(guard, path)?⟧ => ⟦_abs(guard, path)?⟧
 pub fn _clone_entry(guard: &MemfsGuard, path: &PathBuf) -> (r: RvResult<MemfsEntry>)
     requires guard.st().cwd_ok
     ensures (r is Ok) == (at(guard.st(), path.comps()) is Some),
@@ -705,7 +673,6 @@ pub fn _clone_entry(guard: &MemfsGuard, path: &PathBuf) -> (r: RvResult<MemfsEnt
 //@ body
 
 //@ item _clone_file file=src/sys/fs/memfs/vfs.rs block="impl Memfs" fn=_clone_file props=C06,C07,C01,C05,C12
-//@ rw R11 1 ⟦self._abs(guard, path)?⟧ => ⟦_abs(guard, path)?⟧
 pub fn _clone_file(guard: &MemfsGuard, path: &PathBuf) -> (r: RvResult<MemfsFile>)
     requires guard.st().cwd_ok
     ensures ({
@@ -739,9 +706,6 @@ pub fn read(guard: &MemfsGuard, path: &PathBuf) -> (r: RvResult<MemfsFile>)
 //@ body
 
 //@ item write file=src/sys/fs/memfs/vfs.rs block="impl VirtualFileSystem for Memfs" fn=write props=C06,C07,C01,C03,C05,C12
-//@ rw R11 1 ⟦let mut guard = self.write_guard();⟧ => ⟦⟧
-//@ rw R11 1 ⟦self._abs(&guard, path)?⟧ => ⟦_abs(guard, path)?⟧
-//@ rw R11 1 ⟦self._add(&mut guard, MemfsEntry::opts(&path).file().build())?;⟧ => ⟦_add(guard, MemfsEntry::opts(&path).file().build())?;⟧
 //@ rw R6 1 ⟦Ok(Box::new(MemfsFile {⟧ => ⟦Ok((MemfsFile {⟧
 //@ rw R9 1 ⟦data: vec![],⟧ => ⟦data: Vec::new(),⟧
 //@ rw R11 1 ⟦fs: Some(self.clone()),⟧ => ⟦fs: Some(fs.clone()),⟧
@@ -766,9 +730,6 @@ pub fn write(fs: &Memfs, guard: &mut MemfsGuard, path: &PathBuf) -> (r: RvResult
 //@ body
 
 //@ item append file=src/sys/fs/memfs/vfs.rs block="impl VirtualFileSystem for Memfs" fn=append props=C06,C07,C01,C03,C05,C12
-//@ rw R11 1 ⟦let mut guard = self.write_guard();⟧ => ⟦⟧
-//@ rw R11 1 ⟦self._abs(&guard, path)?⟧ => ⟦_abs(guard, path)?⟧
-//@ rw R11 1 ⟦self._add(&mut guard, MemfsEntry::opts(&path).file().build())?;⟧ => ⟦_add(guard, MemfsEntry::opts(&path).file().build())?;⟧
 //@ rw R6 1 ⟦Ok(Box::new(clone))⟧ => ⟦Ok(clone)⟧
 //@ rw R11 1 ⟦clone.fs = Some(self.clone());⟧ => ⟦clone.fs = Some(fs.clone());⟧
 //@ rw R8 1 ⟦clone.seek(SeekFrom::End(0))?;⟧ => ⟦clone.seek_end0()?;⟧
@@ -1005,7 +966,6 @@ pub open spec fn links_from(st: St, s0: St) -> bool {
 //@ item _mkdir_m file=src/sys/fs/memfs/vfs.rs block="impl Memfs" fn=_mkdir_m props=C01,C03,C12
 //@ sig fn _mkdir_m(&self, guard: &mut MemfsGuard, abs: &Path, mode: Option<u32>) -> RvResult<()>
 //@ rw R3 1 for
-//@ rw R11 1 ⟦self._add(guard, MemfsEntry::opts(&path).mode(mode).build())?;⟧ => ⟦_add(guard, MemfsEntry::opts(&path).mode(mode).build())?;⟧
 //@ ins after ⟦let mut path = PathBuf::new();⟧
         let ghost s0 = guard.st();
         let ghost a = abs@;
@@ -1148,9 +1108,6 @@ pub proof fn lemma_mkdir_err(s0: St, a: PathV, mode: Option<u32>, j: nat)
 //@ obligation lemma_mkdir_err props=C01
 
 //@ item mkdir_p file=src/sys/fs/memfs/vfs.rs block="impl VirtualFileSystem for Memfs" fn=mkdir_p props=C01,C03,C05,C12
-//@ rw R11 1 ⟦let mut guard = self.write_guard();⟧ => ⟦⟧
-//@ rw R11 1 ⟦self._abs(&guard, path)?⟧ => ⟦_abs(guard, path)?⟧
-//@ rw R11 1 ⟦self._mkdir_m(&mut guard, &abs, None)?;⟧ => ⟦_mkdir_m(guard, &abs, None)?;⟧
 //@ ins after ⟦_abs(guard, path)?;⟧
         let ghost s0 = guard.st();
         proof { assert forall|j: nat| 1 <= j <= abs@.len() && mk_err(s0, abs@, None, (j - 1) as nat) is None && #[trigger] step_err(s0, abs@, None, j) is Some
@@ -1173,9 +1130,6 @@ pub fn mkdir_p(guard: &mut MemfsGuard, path: &PathBuf) -> (r: RvResult<PathBuf>)
 //@ body
 
 //@ item mkdir_m file=src/sys/fs/memfs/vfs.rs block="impl VirtualFileSystem for Memfs" fn=mkdir_m props=C01,C03,C05,C11,C12
-//@ rw R11 1 ⟦let mut guard = self.write_guard();⟧ => ⟦⟧
-//@ rw R11 1 ⟦self._abs(&guard, path)?⟧ => ⟦_abs(guard, path)?⟧
-//@ rw R11 1 ⟦self._mkdir_m(&mut guard, &abs, Some(mode))?;⟧ => ⟦_mkdir_m(guard, &abs, Some(mode))?;⟧
 //@ ins after ⟦_abs(guard, path)?;⟧
         let ghost s0 = guard.st();
         proof { assert forall|j: nat| 1 <= j <= abs@.len() && mk_err(s0, abs@, Some(mode), (j - 1) as nat) is None && #[trigger] step_err(s0, abs@, Some(mode), j) is Some
